@@ -319,7 +319,21 @@ def rcancel_receive_is_cancel_safe(ctx):
     read_task_receive_is_cancel_safe(ctx, "C03.CANCEL")
 
 
-RULES = [r1_id_and_wire_agree, r2_key_discipline, r3_insert_before_send, r4_completion_consumes, r5_allocator, r6_batch_slots, r7_ids_not_ordered, r8_http_client_id_check, rarr_every_element, rcancel_receive_is_cancel_safe]
+
+def _borrowed(modname, fname):
+    def run(ctx):
+        import importlib
+        mod = importlib.import_module("jrsa.rules." + modname)
+        return getattr(mod, fname)(ctx)
+    run.__name__ = "%s_%s" % (modname, fname)
+    return run
+
+
+# "its value or error object is exactly what that response carried": the client-side Response parser (C15 R3-R5, R8)
+BORROWED = [_borrowed("c15", n) for n in ("r3_field_tables", "r4_duplicate_guards", "r5_acceptance_table", "r8_into_owned_is_fieldwise", "r9_client_tries_response_first")]
+
+
+RULES = [r1_id_and_wire_agree, r2_key_discipline, r3_insert_before_send, r4_completion_consumes, r5_allocator, r6_batch_slots, r7_ids_not_ordered, r8_http_client_id_check, rarr_every_element, rcancel_receive_is_cancel_safe] + BORROWED
 
 LEVEL_TEXT = (
     "Structural necessary conditions of response demultiplexing decided from the type-checked program: the recorded id "
